@@ -15,6 +15,10 @@ import (
 type Mode struct {
 	Float string // "fp" | "fpuf" | "real"
 	Int   string // "bv" | "int"
+	// Lift (real mode): print every real term as a division-free pair
+	// numerator/denominator ("fraction lifting", DESIGN 3.2); denominators are
+	// assumed non-zero (the claim is about the interior of the domain)
+	Lift bool
 }
 
 type Script struct {
@@ -458,6 +462,9 @@ func (p *printer) declUF(name string, args []term.Sort, res term.Sort) {
 
 // Build prints the conjunction of assertions.
 func Build(mode Mode, asserts []*term.Term) *Script {
+	if mode.Float == "real" && mode.Lift {
+		return buildLifted(mode, asserts)
+	}
 	p := &printer{mode: mode, names: map[int]string{}, ufs: map[string]bool{}}
 	sc := &Script{Mode: mode, GetNames: map[string]string{}}
 	var body strings.Builder
